@@ -57,6 +57,15 @@ check('C06', 'model_checking',
       TB, 'explicit-state BFS over the implementation; round-trip and cross-implementation oracle per state',
       'E1', 'DESIGN.md §4 C06')
 
+check('C09', 'model_checking',
+      'Lock-step product BFS: state = (canonical C container, canonical Python container); every op of the '
+      'normal alphabet plus an argument alphabet of every Python type (in/out-of-range ints around every '
+      'boundary, bool, floats incl. inf/nan, str, bytes of several lengths, None, tuples, default-comparison '
+      'and custom comparable objects) as key, as value and as range bound is applied to both in every '
+      'reachable state; compared: result, exception class, contents, shape, pickle bytes; plus the absolute '
+      'rule for typed domains (absence for reads, TypeError + unchanged for writes).',
+      TB, 'lock-step explicit-state BFS over both implementations', 'E2', 'DESIGN.md §4 C09')
+
 PENDING = ['C%02d' % i for i in range(1, 20)]
 
 
@@ -82,6 +91,11 @@ def main():
         engines=[
             dict(name='E1', path='vt/explore.py', serves_properties=['C01', 'C02', 'C03', 'C06', 'C18'],
                  kind_free_text='explicit-state BFS; transition function = the real container'),
+            dict(name='E2', path='vt/props/c09.py', serves_properties=['C09'],
+                 kind_free_text='lock-step product BFS of the C and the pure-Python implementation'),
+            dict(name='E4', path='vt/minidb.py', serves_properties=['C04', 'C05', 'C08', 'C19'],
+                 kind_free_text='in-memory storage + data manager (ZODB commit order, MVCC, conflict '
+                                'resolution) driving the real persistence hooks'),
         ],
         checks=[CHECKS[k] for k in sorted(CHECKS)],
         not_applicable=na,
